@@ -127,6 +127,12 @@ class Sim:
             self.mut_count += 1
             if len(self.mut_events) < 500:
                 self.mut_events.append([op, label, n])
+            for m in self.mutations:
+                at = m.get("at") or {}
+                if at.get("mut_index") == idx and not m.get("done"):
+                    # "just before the k-th change this command makes to the tree", whatever file that concerns
+                    m["done"] = True
+                    self.apply_mutation(m["do"])
             if self.crash_at is not None and idx == self.crash_at:
                 if op == "write" and self.torn is not None and n > 0:
                     b = self.torn % n
@@ -177,6 +183,8 @@ class Sim:
 
     def apply_mutation(self, do):
         """A concurrent user/process changes the tree. Uses the real calls."""
+        if do["op"] == "run":
+            return self.run_concurrently(do["argv"])
         self.fired.append("mutation:" + do["op"] + "|" + do["path"])
         root = self.roots[0][0]
         p = os.path.join(root, do["path"])
@@ -198,6 +206,35 @@ class Sim:
                     fp.write(do.get("content", "x").encode("utf-8", "surrogateescape"))
         except OSError:
             self.fired.append("mutation-noop")
+
+    def run_concurrently(self, argv):
+        """Another invocation of the tool, started by somebody else, runs from start to end at this very point of
+        the current command (between two of its file-system events). No faults are planned for it."""
+        sys.stdout.flush()
+        sys.stderr.flush()
+        pid = os.fork()
+        if pid == 0:
+            code = 70
+            try:
+                self.faults, self.mutations, self.crash_at, self.role = [], [], None, "B"
+                self.on_crash = None
+                devnull = _ORIG["os_open"](os.devnull, os.O_WRONLY)
+                os.dup2(devnull, 1)
+                os.dup2(devnull, 2)
+                sys.stdout = io.TextIOWrapper(io.FileIO(1, "w", closefd=False), encoding="utf-8", errors="backslashreplace")
+                sys.stderr = io.TextIOWrapper(io.FileIO(2, "w", closefd=False), encoding="utf-8", errors="backslashreplace")
+                from reuse.cli.main import main
+                try:
+                    main(args=list(argv), prog_name="reuse")
+                    code = 0
+                except SystemExit as e:
+                    code = e.code if isinstance(e.code, int) else (0 if e.code is None else 1)
+            except BaseException:  # noqa: BLE001
+                code = 70
+            finally:
+                os._exit(code)
+        _, status = os.waitpid(pid, 0)
+        self.fired.append(f"concurrent-run:exit{os.waitstatus_to_exitcode(status)}|{argv[-1]}")
 
     def probe(self, name):
         self.probes.add(name)
@@ -497,6 +534,10 @@ def sim_os_close(fd):
     return _ORIG["os_close"](fd)
 
 
+import subprocess as _subprocess
+_ORIG_SUBPROCESS_RUN = _subprocess.run
+
+
 class FailingStdout:
     """stdout whose reader has gone away: after *limit* characters every write raises EPIPE."""
 
@@ -627,6 +668,20 @@ def install(cfg):
     os.open = sim_os_open
     os.write = sim_os_write
     os.close = sim_os_close
+    if cfg.get("slow_git"):
+        # an external command that takes longer than any deadline the code may have set for it: where a time-out was
+        # given, it expires; where none was given, the call simply takes its (simulated) time and succeeds
+        import subprocess
+        slow = cfg["slow_git"]
+
+        def slow_run(cmd, *a, **kw):
+            words = [str(c) for c in cmd] if isinstance(cmd, (list, tuple)) else str(cmd).split()
+            if kw.get("timeout") is not None and any(w in words for w in ([slow] if isinstance(slow, str) else slow)):
+                sim.fired.append(f"timeout-expired:{kw['timeout']}|" + " ".join(words[:3]))
+                raise subprocess.TimeoutExpired(cmd, kw["timeout"], output=b"", stderr=b"")
+            return _ORIG_SUBPROCESS_RUN(cmd, *a, **kw)
+
+        subprocess.run = slow_run
     if cfg.get("stderr"):
         sim.fired.append(f"stderr-broken:{cfg['stderr']}|<stderr>")
     if cfg.get("stdout_fail_after") is not None:
